@@ -236,6 +236,65 @@ class ProgGen:
             return self.ch(["[]", "{}", "()", "set()"])
         return self.fstring(sc, 0)
 
+    # ------------------------------------------------------------ template mini-languages (generated from their grammars)
+    def pct_spec(self, keyed):
+        """One %-conversion: % [(key)] [flags] [width] [.precision] [length] type — every part optional, every type."""
+        key = "(%s)" % self.ch(["a", "b", "score", "a b", "0"]) if keyed else ""
+        flags = "".join(c for c in "#0- +" if self.p(0.2))
+        width = self.ch(["", "", "5", "0", "12", "*"]) if not keyed else self.ch(["", "", "5", "12"])
+        prec = self.ch(["", "", ".", ".2", ".0", ".10", ".*"]) if not keyed else self.ch(["", "", ".", ".2", ".0"])
+        length = self.ch(["", "", "", "h", "l", "L"])
+        conv = self.ch(list("diouxXeEfFgGcrsba") + ["%", "y", "z", "k"])
+        return "%" + key + flags + width + prec + length + conv
+
+    def pct_template(self):
+        keyed = self.p(0.3)
+        parts = []
+        for _ in range(self.r.randint(1, 3)):
+            parts.append(self.ch(["", "t ", "x=", "%% "]) + self.pct_spec(keyed))
+        t = "".join(parts) + self.ch(["", "", " end", "%"])
+        return t, keyed
+
+    def pct_expr(self, operand):
+        """<template> % <args>: str and bytes templates, argument tuples / dicts of matching and non-matching arity."""
+        self.f("percent_format")
+        t, keyed = self.pct_template()
+        lit = ("b" if self.p(0.2) else "") + repr(t)
+        n = t.count("%") - 2 * t.count("%%")
+        stars = t.count("*")
+        args = [operand() for _ in range(max(0, n + stars + self.ch([0, 0, 0, -1, 1])))]
+        if keyed:
+            rhs = self.ch(["{'a': %s, 'b': %s, 'score': %s}" % (operand(), operand(), operand()), "{'a': %s}" % operand(), "{}", operand(), "(%s,)" % operand()])
+        elif len(args) == 1 and self.p(0.5):
+            rhs = args[0]
+        else:
+            rhs = "(%s%s)" % (", ".join(args), "," if len(args) == 1 else "")
+        return "(%s %% %s)" % (lit, rhs)
+
+    def fmt_spec(self, d=1):
+        """format_spec ::= [[fill]align][sign][z][#][0][width][grouping][.precision][type], parts may be nested {} fields"""
+        fill = self.ch(["", "", "", "*<", ">", "^", "=", "x^", "0="])
+        sign = self.ch(["", "", "+", "-", " "])
+        alt = self.ch(["", "", "#", "z"]) + self.ch(["", "", "0"])
+        width = self.ch(["", "", "5", "10", "{}", "{w}", "{0}"]) if d > 0 else self.ch(["", "5"])
+        group = self.ch(["", "", ",", "_"])
+        prec = self.ch(["", "", ".", ".2", ".0", ".{}", ".{p}"]) if d > 0 else self.ch(["", ".2"])
+        typ = self.ch(["", "", "b", "c", "d", "e", "E", "f", "F", "g", "G", "n", "o", "s", "x", "X", "%", "y", "Y-%m"])
+        return fill + sign + alt + width + group + prec + typ
+
+    def fmt_field(self):
+        name = self.ch(["", "", "0", "1", "x", "a", "0.real", "x.y", "0[0]", "x[k]", "a[0].b", "\u00b2", "0x", "-1", " "])
+        conv = self.ch(["", "", "", "!r", "!s", "!a", "!z", "!"])
+        spec = self.ch(["", ":" + self.fmt_spec(), ":" + self.fmt_spec(), ":"])
+        return "{" + name + conv + spec + "}"
+
+    def fmt_expr(self, operand):
+        self.f("str_format")
+        t = "".join(self.ch(["", "t ", "{{", "}}"]) + self.fmt_field() for _ in range(self.r.randint(1, 3))) + self.ch(["", "", "{", "}"])
+        pos = [operand() for _ in range(self.r.randint(0, 3))]
+        kw = ["%s=%s" % (k, operand()) for k in ("x", "a", "w", "p", "k") if self.p(0.35)]
+        return "%r.format(%s)" % (t, ", ".join(pos + kw))
+
     def known_op(self):
         """Operators applied to statically known operands (literals, module constants, sys.version_info / sys.platform):
         pyanalyze evaluates many of these itself, so an operator that raises must be caught by it."""
@@ -247,12 +306,9 @@ class ProgGen:
             b = self.ch(self.hostile_names)
         k = self.ch(["cmp", "cmp", "cmp", "in", "bin", "un", "sub", "slice", "chain", "call", "pct", "pct", "fmt", "fmt", "bool", "iter", "unpack"])
         if k == "pct":
-            self.f("percent_format")
-            return "(%r %% %s)" % (self.ch(["%c", "%e", "%f", "%d", "%x", "%.2f", "%5c", "%s", "%r", "%a", "%i", "%g", "%o", "%*d"]), self.ch([a, "(%s,)" % a, "(%s, %s)" % (a, b)]))
+            return self.pct_expr(lambda: self.ch([a, b] + KNOWN_LITS[:12]))
         if k == "fmt":
-            self.f("str_format")
-            return "%r.format(%s)" % (self.ch(["{:c}", "{:e}", "{:.2f}", "{:.2%}", "{:d}", "{:x}", "{:n}", "{0:c} {1:e}", "{!r:>5}", "{:{}}", "{\u00b2}", "{0\u0663}", "{:,d}", "{a:c}"]),
-                                       self.ch([a, "%s, %s" % (a, b), "a=%s" % a]))
+            return self.fmt_expr(lambda: self.ch([a, b] + KNOWN_LITS[:12]))
         if k == "bool":
             return "(%s if %s else %s)" % (b, a, self.ch(["not " + a, "bool(%s)" % a, a + " and " + b]))
         if k == "iter":
@@ -465,6 +521,10 @@ class ProgGen:
                 self.f("yield")
                 return "(yield %s)" % e() if self.p(0.7) or sc.is_async else "(yield from %s)" % e()
             return self.atom(sc)
+        if k == "percent" and self.p(0.6):
+            return self.pct_expr(lambda: self.expr(sc, d - 1))
+        if k == "format" and self.p(0.6):
+            return self.fmt_expr(lambda: self.expr(sc, d - 1))
         if k == "percent":
             self.f("percent_format")
             tpl = self.ch(["%s", "%d", "%s %s", "%(a)s", "%(a)s %(b)d", "%5.2f", "%c", "%x %%", "%", "%z", "%s %", "%*d", "%(a)s %s", "%r"])
